@@ -86,7 +86,7 @@ def check_op(op, specs, args, stats, enum=False, down=False):
     from sigtools import signatures
     stats.case()
     # annotations spelled with T9 / Missing9 are postponed ones that cannot be evaluated (TypeError, AttributeError, NameError)
-    sigs = [realfn.sig_of(s, 'f%d' % i, future=any(p.ann and ('T9' in p.ann or 'Missing9' in p.ann) for p in s)) for i, s in enumerate(specs)]
+    sigs = [realfn.sig_of(s, 'f%d' % i) for i, s in enumerate(specs)]
     case = {'op': op, 'specs': [list(map(list, s)) for s in specs], 'args': args, 'downgraded': down}
     desc = describe(op, specs, args)
     r, exc = apply_op(op, sigs, args)
